@@ -1,8 +1,14 @@
 """Panic-site inventory of the code C01 is anchored in (DESIGN §2.2 A).
 
-scan()      every syntactic panic site of the CURRENT source of the anchored
-            files outside test code, keyed by
-            (file, enclosing fn, kind, normalised line text, occurrence index);
+scan()      every syntactic panic site of the CURRENT source outside test code of
+            EVERY source file of the five crates (third audit: the whole crate set,
+            not a hand-picked list - a new file is anchored the moment it exists),
+            keyed by (file, enclosing fn, kind, ordinal of the site among the sites
+            of that kind in that fn).  The line text and the SHAPE of the enclosing
+            statement (locals abstracted) are carried as secondary hints: renaming
+            a local or re-wrapping a line keeps key and shape, a new site has a new
+            ordinal (no entry), a site whose statement has another shape than the
+            one its entry was written for is reported as changed;
 generate()  writes coq/gen/PanicSites.v (the regenerated site list) and
             coq/gen/PanicMap.v (coq/PANIC_MAP.json after validation: an entry
             is dropped when the theorem it cites is not an obligation of the
@@ -19,6 +25,9 @@ import re
 
 import common
 
+CRATES = ("cli", "parser", "program_structure", "program_analysis", "circom_algebra")
+
+# files that must exist (their absence is a problem of its own); the scan covers every source file of CRATES
 ANCHORED = [
     "cli/src/main.rs",
     "parser/src/lib.rs", "parser/src/parser_logic.rs", "parser/src/syntax_sugar_remover.rs",
@@ -66,7 +75,51 @@ PATTERNS = [
     ("sub", re.compile(r"(?<=[A-Za-z0-9_\)\]])\s+-=?\s+(?=[A-Za-z0-9_\(&*])")),
     ("div", re.compile(r"(?<=[A-Za-z0-9_\)\]])\s+/=?\s+(?=[A-Za-z0-9_\(&*])")),
     ("rem", re.compile(r"(?<=[A-Za-z0-9_\)\]])\s+%=?\s+(?=[A-Za-z0-9_\(&*])")),
+    # third audit: integer addition / multiplication (overflow panics in debug builds) unless an operand is a
+    # small integer literal (add only: `n + 1` on a length or counter) or both operands are CamelCase names
+    # (trait bounds `A + B`); see small_or_bound()
+    ("add", re.compile(r"(?<=[A-Za-z0-9_\)\]])\s+\+=?\s+(?=[A-Za-z0-9_\(&*])")),
+    ("mul", re.compile(r"(?<=[A-Za-z0-9_\)\]])\s+\*=?\s+(?=[A-Za-z0-9_\(&*])")),
 ]
+
+_CAMEL = re.compile(r"[A-Z][A-Za-z0-9]*[a-z][A-Za-z0-9]*$")
+
+
+def small_or_bound(code, m, kind):
+    """True when the `+` / `*` at match m is not counted: a small literal operand of `+`, or a bound `Trait + Trait`."""
+    left = re.search(r"([A-Za-z0-9_]+)$", code[max(0, m.start() - 80):m.start()])
+    right = re.match(r"([A-Za-z0-9_]+)", code[m.end():m.end() + 80])
+    lt, rt = (left.group(1) if left else ""), (right.group(1) if right else "")
+    if lt and rt and _CAMEL.match(lt) and _CAMEL.match(rt):
+        return True
+    if kind == "add":
+        for t in (lt, rt):
+            if re.fullmatch(r"[0-9]{1,5}", t) and int(t) < 65536:
+                # the literal must be the whole operand (not `x.0`, not `a1`)
+                if t is rt and not re.match(r"[0-9]+\s*[\.\[\(]", code[m.end():m.end() + 12]):
+                    return True
+                if t is lt and not re.search(r"[\.\w]\s*$", code[max(0, m.start() - len(t) - 1):m.start() - len(t)]):
+                    return True
+    return False
+
+
+_KEEP = {"self", "Self", "super", "crate", "as", "in", "if", "else", "match", "let", "mut", "ref", "return", "for",
+         "while", "loop", "move", "fn", "pub", "impl", "where", "unsafe", "break", "continue", "true", "false"}
+
+
+def shape_of(stmt, limit=240):
+    """The statement text with what a harmless rewrite changes removed: white space, and the names of locals and
+    fields (lower-case identifiers that are not called: not followed by `(`, `!` or `::`)."""
+    def sub(m):
+        w = m.group(0)
+        rest = stmt[m.end():m.end() + 3].lstrip()
+        if w in _KEEP or w[0].isupper() or w[0].isdigit() or rest.startswith("(") or rest.startswith("!") \
+                or rest.startswith("::"):
+            return w
+        return "_"
+    out = re.sub(r"[A-Za-z_][A-Za-z0-9_]*|[0-9][A-Za-z0-9_]*", sub, stmt)
+    out = re.sub(r"\s+", "", out)
+    return out if limit is None else out[:limit]
 
 
 def blank(text, lalrpop=False):
@@ -198,6 +251,17 @@ def functions(code, lalrpop):
     return out
 
 
+def stmt_bounds(code, pos):
+    """[a, b) of the statement around pos: from the previous `;` `{` `}` `,` to the next one (in the blanked code)."""
+    a = pos
+    while a > 0 and code[a - 1] not in ";{},":
+        a -= 1
+    b = pos
+    while b < len(code) and code[b] not in ";{},":
+        b += 1
+    return a, b
+
+
 def scan_file(rel):
     path = os.path.join(common.REPO, rel)
     text = open(path, encoding="utf-8", errors="replace").read()
@@ -217,7 +281,7 @@ def scan_file(rel):
                 before = code[max(0, pos - 40):pos]
                 if re.search(r"#!?\s*$", before):
                     continue
-            if kind in ("sub", "div", "rem") and lal and False:
+            if kind in ("add", "mul") and small_or_bound(code, m, kind):
                 continue
             ln = bisect.bisect_right(line_start, pos) - 1
             a = line_start[ln]
@@ -230,29 +294,49 @@ def scan_file(rel):
             else:
                 fn, fa, fb = "<top>", 0, len(code)
             norm = re.sub(r"\s+", " ", text[a:b]).strip()[:160]
+            sa, sb = stmt_bounds(code, pos)
             sites.append({"file": rel, "fn": fn, "kind": kind, "text": norm, "line": ln + 1, "pos": pos,
-                          "fn_before": re.sub(r"\s+", " ", text[fa:pos])})
+                          "shape": shape_of(code[sa:sb]),
+                          "fn_before": re.sub(r"\s+", " ", text[fa:pos]), "fn_before_code": code[fa:b]})
     return sites
 
 
-def scan():
-    files = []
+def anchored_files():
+    """Every .rs / .lalrpop file under <crate>/src of the five crates (plus whatever ANCHORED names elsewhere)."""
+    files = set()
+    for crate in CRATES:
+        for f in common.tree_files(os.path.join(common.REPO, crate, "src"), (".rs", ".lalrpop")):
+            files.add(os.path.relpath(f, common.REPO))
     for pat in ANCHORED:
-        hits = sorted(glob.glob(os.path.join(common.REPO, pat)))
-        files.extend(os.path.relpath(h, common.REPO) for h in hits)
+        for h in glob.glob(os.path.join(common.REPO, pat)):
+            files.add(os.path.relpath(h, common.REPO))
+    return sorted(files)
+
+
+def scan():
+    files = anchored_files()
     sites = []
     missing = [p for p in ANCHORED if not glob.glob(os.path.join(common.REPO, p))]
     for rel in files:
         sites.extend(scan_file(rel))
     sites.sort(key=lambda s: (s["file"], s["pos"], s["kind"]))
-    seen = {}
+    seen, seen_old = {}, {}
     for s in sites:
-        k = (s["file"], s["fn"], s["kind"], s["text"])
+        k = (s["file"], s["fn"], s["kind"])
         s["occ"] = seen.get(k, 0)
         seen[k] = s["occ"] + 1
-        s["key"] = "%s::%s::%s::%s#%d" % (s["file"], s["fn"], s["kind"], s["text"], s["occ"])
+        s["key"] = "%s::%s::%s#%d" % (s["file"], s["fn"], s["kind"], s["occ"])
         s["id"] = hashlib.sha256(s["key"].encode()).hexdigest()[:16]
+        # the key of the first two audits (line text + occurrence), kept for the migration of the map only
+        ko = (s["file"], s["fn"], s["kind"], s["text"])
+        o = seen_old.get(ko, 0)
+        seen_old[ko] = o + 1
+        s["old_key"] = "%s::%s::%s::%s#%d" % (s["file"], s["fn"], s["kind"], s["text"], o)
+    _last_files[:] = files
     return sites, missing
+
+
+_last_files = []
 
 
 def coq_str(s):
@@ -288,6 +372,7 @@ def called_outside(method, own_file):
 
 
 _cited = {}
+_drift = []
 DISPOSITIONS = ("discharged_by", "guarded", "outside_model", "observed_only")
 _last = {}
 
@@ -303,11 +388,21 @@ def validate(sites, pmap):
     """-> (valid entries {id: (disposition, text)}, problems [str])"""
     obl = obligations_of_props()
     valid, problems = {}, []
+    drift = _drift
+    del drift[:]
     for s in sites:
         e = pmap.get(s["key"])
         if e is None:
-            problems.append("unmapped site: " + s["key"])
+            problems.append("unmapped site: %s (line %d: %s)" % (s["key"], s["line"], s["text"]))
             continue
+        if e.get("shape") is not None and e["shape"] != s["shape"]:
+            # the entry was written for another expression: ordinals shifted (a site was inserted or removed
+            # before this one) or the statement itself was rewritten beyond names and layout
+            problems.append("site changed: %s now reads `%s` (line %d), its entry was written for the shape `%s` (%s)"
+                            % (s["key"], s["text"], s["line"], e["shape"], e.get("text", "")))
+            continue
+        if e.get("text") is not None and e["text"] != s["text"]:
+            drift.append(s["key"])
         kinds = [d for d in DISPOSITIONS if d in e]
         if len(kinds) != 1 and not (set(kinds) == {"discharged_by", "guarded"}):
             problems.append("entry needs exactly one disposition: " + s["key"])
@@ -321,7 +416,9 @@ def validate(sites, pmap):
                     ok = False
         if "guard_text" in e:
             g = re.sub(r"\s+", " ", e["guard_text"]).strip()
-            if not g or (g not in s["fn_before"] and g not in s["text"]):
+            # literally, or up to the names of locals (a renamed local does not remove a guard)
+            if not g or (g not in s["fn_before"] and g not in s["text"]
+                         and shape_of(blank(g), None) not in shape_of(s["fn_before_code"], None)):
                 problems.append("guard `%s` no longer precedes the site inside its function: %s" % (g, s["key"]))
                 ok = False
         if "guard_in" in e:
@@ -333,11 +430,21 @@ def validate(sites, pmap):
                 problems.append("guard text no longer present in %s: %s" % (e["guard_in"]["file"], s["key"]))
                 ok = False
         if "uncalled" in e:
-            callers = called_outside(e["uncalled"], s["file"])
+            for meth in ([e["uncalled"]] if isinstance(e["uncalled"], str) else e["uncalled"]):
+                callers = called_outside(meth, s["file"])
+                if callers:
+                    problems.append("method %s is called from %s, entry says it is not called: %s" % (meth, callers[0], s["key"]))
+                    ok = False
+        if "called_only_from" in e:
+            # third audit: a CALL into a panicking accessor from a file the entry does not know is a change of the
+            # set of paths that reach the site
+            allowed = set(e["called_only_from"]["files"])
+            callers = [c for c in called_outside(e["called_only_from"]["method"], "") if c not in allowed]
             if callers:
-                problems.append("method %s is called from %s, entry says it is not called: %s" % (e["uncalled"], callers[0], s["key"]))
+                problems.append("method %s is now also called from %s, the entry of %s lists its callers as %s"
+                                % (e["called_only_from"]["method"], callers[0], s["key"], sorted(allowed)))
                 ok = False
-        if "guarded" in e and not any(k in e for k in ("guard_text", "guard_in", "uncalled")):
+        if "guarded" in e and not any(k in e for k in ("guard_text", "guard_in", "uncalled", "called_only_from")):
             problems.append("guarded entry without a checkable guard: " + s["key"])
             ok = False
         if not (e.get("why") or e.get("observed_only") or e.get("outside_model") or "").strip() and "discharged_by" not in e:
@@ -423,10 +530,32 @@ def generate():
     _sources.clear()
     _last.clear()
     _last.update({"sites": len(sites), "by_disposition": by, "problems": problems[:40], "problem_count": len(problems),
-                  "stale_map_entries": len(stale), "by_kind": _count(sites, "kind"), "files": len(set(s["file"] for s in sites))})
+                  "stale_map_entries": len(stale), "entries_whose_line_text_drifted_shape_kept": len(_drift),
+                  "keying": "file::fn::kind#ordinal-in-fn; secondary hint: shape of the enclosing statement",
+                  "files_scanned": len(_last_files), "time_box": time_box(), "by_kind": _count(sites, "kind"), "files": len(set(s["file"] for s in sites))})
     for p in problems[:12]:
         common.log("panic-site inventory: " + p)
     return sites, valid, problems, stale
+
+
+def time_box():
+    """MAX_ANALYSIS_DURATION of control_flow_graph/cfg.rs in seconds (None when the declaration is not found) and
+    the number of places that compare an elapsed time with it."""
+    try:
+        code = blank(open(os.path.join(common.REPO, "program_structure/src/control_flow_graph/cfg.rs"),
+                          encoding="utf-8", errors="replace").read())
+    except OSError:
+        return {"seconds": None, "uses": 0}
+    m = re.search(r"\bconst\s+MAX_ANALYSIS_DURATION\s*:\s*(?:std::time::)?Duration\s*=\s*(?:std::time::)?Duration::"
+                  r"(from_secs|from_millis|from_micros|from_nanos|from_secs_f64|from_secs_f32|new)\s*\(\s*([0-9_\.]+)\s*(?:,\s*([0-9_]+)\s*)?\)", code)
+    secs = None
+    if m:
+        v = float(m.group(2).replace("_", ""))
+        unit = {"from_secs": 1.0, "from_millis": 1e-3, "from_micros": 1e-6, "from_nanos": 1e-9, "from_secs_f64": 1.0,
+                "from_secs_f32": 1.0, "new": 1.0}[m.group(1)]
+        secs = v * unit + (float(m.group(3).replace("_", "")) * 1e-9 if m.group(3) else 0.0)
+    uses = len(re.findall(r"\.elapsed\(\)\s*>=?\s*MAX_ANALYSIS_DURATION\b", code))
+    return {"seconds": secs, "uses": uses}
 
 
 def _count(sites, field):
